@@ -54,6 +54,7 @@ type oracleResult struct {
 var generators = map[string]func(r *rng, n int, tier string, cw *caseWriter){}
 var oracles = map[string]func(r *rng, n int, tier string) *oracleResult{}
 var replays = map[string]func(input json.RawMessage) *oracleResult{}
+var appliers = map[string]func(in, out string) error{}
 
 func main() {
 	if len(os.Args) < 3 {
@@ -94,6 +95,20 @@ func main() {
 		}
 		res := o(newRng(*seed), *n, *tier)
 		writeResult(res, *out)
+	case "apply":
+		if len(os.Args) < 5 {
+			fmt.Fprintln(os.Stderr, "usage: harness apply <name> <in.jsonl> <out.jsonl>")
+			os.Exit(2)
+		}
+		ap, ok := appliers[name]
+		if !ok {
+			fmt.Fprintln(os.Stderr, "harness: no applier", name)
+			os.Exit(2)
+		}
+		if err := ap(os.Args[3], os.Args[4]); err != nil {
+			fmt.Fprintln(os.Stderr, err)
+			os.Exit(3)
+		}
 	case "replay":
 		if len(os.Args) < 4 {
 			fmt.Fprintln(os.Stderr, "usage: harness replay <prop> <file>")
